@@ -93,6 +93,8 @@ func (e *Enc) Run() (err error) {
 		}
 	}
 	e.emitGlobalAxioms()
+	e.curBlock = fn.Blocks[0]
+	e.fireAt("entry", "entry", true, fn.Pos(), st, map[string]*Val{}, "true")
 
 	order := e.topoOrder()
 	for _, b := range order {
@@ -721,7 +723,7 @@ func (e *Enc) execAlloc(ins *ssa.Alloc, st *State) {
 	e.zeroInit(st, p.Root, ref)
 	// ghost fields of a new object start at 0
 	for g := range e.DB.GhostFields {
-		hk := e.hkeyNamed(types.Typ[types.UnsafePointer], "/"+g+":"+typeKey(ins.Type()), "Int")
+		hk := e.hkeyNamed(types.Typ[types.UnsafePointer], "/"+g+":"+ghostOwnerKey(ins.Type()), "Int")
 		e.heapSet(st, hk, sStore(e.heapGet(st, hk), []string{ref, "0"}, "0"))
 	}
 }
